@@ -12,6 +12,9 @@ import (
 	"encoding/json"
 	"fmt"
 	"os"
+	"runtime"
+	"sort"
+	"strings"
 	"sync"
 	"time"
 
@@ -32,7 +35,16 @@ type c25obs struct {
 	States []int    `json:"states"`
 	Calls  []string `json:"calls"`
 	Late   int      `json:"late_calls"` // calls seen after Close
+	Leaks  []string `json:"leaks"`      // goroutines still inside the opcua packages after Close (client process)
 	Err    string   `json:"err,omitempty"`
+}
+
+// what the child (the client process) reports
+type c25child struct {
+	States    []int    `json:"states"`
+	CloseNano int64    `json:"close_nano"`
+	Leaks     []string `json:"leaks"`
+	Err       string   `json:"err,omitempty"`
 }
 
 func popb(s *string) bool {
@@ -52,13 +64,13 @@ func c25Run(cs *Case) c25obs {
 	injected, closed := false, false
 	dials, activates, creates, namespaces := cs.S["dials"], cs.S["activates"], cs.S["creates"], cs.S["namespaces"]
 	var srv *scriptsrv.Server
-	rec := func(c string) {
-		if closed {
-			ob.Late++
-			return
-		}
-		ob.Calls = append(ob.Calls, c)
+	type stamped struct {
+		c string
+		t int64
 	}
+	var calls []stamped
+	rec := func(c string) { calls = append(calls, stamped{c, time.Now().UnixNano()}) }
+	_ = closed
 	handler := func(c *scriptsrv.Conn, reqID uint32, r ua.Request) (ua.Response, bool) {
 		mu.Lock()
 		defer mu.Unlock()
@@ -121,9 +133,41 @@ func c25Run(cs *Case) c25obs {
 			c.Close()
 		}
 	}
+	// the client runs in a process of its own: after Close its goroutines can be listed without the server's
+	cs.URL = srv.URL
+	b, _ := json.Marshal(cs)
+	exe, _ := os.Executable()
+	p := startCmd(exe, []string{"c25"}, []string{"C25_CHILD=1"}, b, 120*time.Second)
+	var ch c25child
+	if err := json.Unmarshal(p.stdout, &ch); err != nil {
+		msg, where := parsePanic(string(p.stderr))
+		ob.Err = "client process failed: " + msg + " " + where
+		return ob
+	}
+	time.Sleep(100 * time.Millisecond)
+	mu.Lock()
+	for _, c := range calls {
+		if ch.CloseNano != 0 && c.t > ch.CloseNano {
+			ob.Late++
+		} else {
+			ob.Calls = append(ob.Calls, c.c)
+		}
+	}
+	mu.Unlock()
+	ob.States, ob.Leaks, ob.Err = ch.States, ch.Leaks, ch.Err
+	if ob.Leaks == nil {
+		ob.Leaks = []string{}
+	}
+	return ob
+}
+
+// c25Client is the client process: Connect, trigger the fault, wait until the reported states settle, optionally Close,
+// then list the goroutines that are still inside the opcua packages.
+func c25Client(cs *Case) c25child {
+	var ob c25child
 	var states []int
 	var stMu sync.Mutex
-	c, err := newClient(srv.URL, cs.P["auto"] == 1, opcua.RequestTimeout(3*time.Second), opcua.StateChangedFunc(func(s opcua.ConnState) {
+	c, err := newClient(cs.URL, cs.P["auto"] == 1, opcua.RequestTimeout(3*time.Second), opcua.StateChangedFunc(func(s opcua.ConnState) {
 		stMu.Lock()
 		states = append(states, int(s))
 		stMu.Unlock()
@@ -132,22 +176,20 @@ func c25Run(cs *Case) c25obs {
 		ob.Err = err.Error()
 		return ob
 	}
-	ctx, cancel := context.WithTimeout(context.Background(), 40*time.Second)
+	ctx, cancel := context.WithTimeout(context.Background(), 60*time.Second)
 	defer cancel()
 	if err := c.Connect(ctx); err != nil {
 		ob.Err = err.Error()
 		return ob
 	}
 	ctlRead(ctx, c, 3)
-	// quiescence: the state sequence and the call sequence do not change for 600 ms
+	// quiescence: the state sequence does not change for 800 ms
 	last, stable := "", 0
-	for i := 0; i < 300 && stable < 6; i++ {
+	for i := 0; i < 400 && stable < 8; i++ {
 		time.Sleep(100 * time.Millisecond)
-		mu.Lock()
 		stMu.Lock()
-		cur := fmt.Sprint(states, ob.Calls)
+		cur := fmt.Sprint(states)
 		stMu.Unlock()
-		mu.Unlock()
 		if cur == last {
 			stable++
 		} else {
@@ -156,17 +198,44 @@ func c25Run(cs *Case) c25obs {
 	}
 	if cs.P["close"] == 1 {
 		c.Close(ctx)
-		mu.Lock()
-		closed = true
-		mu.Unlock()
-		time.Sleep(500 * time.Millisecond)
+		ob.CloseNano = time.Now().UnixNano()
+		// settling delay, then: which goroutines are still running code of the library?
+		for try := 0; try < 15; try++ {
+			time.Sleep(200 * time.Millisecond)
+			ob.Leaks = opcuaGoroutines()
+			if len(ob.Leaks) == 0 {
+				break
+			}
+		}
 	}
-	mu.Lock()
 	stMu.Lock()
 	ob.States = append([]int(nil), states...)
 	stMu.Unlock()
-	mu.Unlock()
 	return ob
+}
+
+// opcuaGoroutines returns, for every goroutine (other than the caller) whose stack contains a frame of
+// github.com/gopcua/opcua, the innermost such function.
+func opcuaGoroutines() []string {
+	buf := make([]byte, 1<<22)
+	buf = buf[:runtime.Stack(buf, true)]
+	var out []string
+	for i, g := range strings.Split(string(buf), "\n\n") {
+		if i == 0 {
+			continue // the calling goroutine
+		}
+		for _, l := range strings.Split(g, "\n") {
+			if strings.HasPrefix(l, "github.com/gopcua/opcua") {
+				if k := strings.LastIndex(l, "("); k > 0 {
+					l = l[:k]
+				}
+				out = append(out, strings.TrimPrefix(l, "github.com/gopcua/opcua"))
+				break
+			}
+		}
+	}
+	sort.Strings(out)
+	return out
 }
 
 func c25Gen(r *rng.R, i int) *Case {
@@ -192,7 +261,7 @@ func c25Main(seed uint64, n int, replay string) {
 		if err := json.NewDecoder(os.Stdin).Decode(&cs); err != nil {
 			os.Exit(2)
 		}
-		ob := c25Run(&cs)
+		ob := c25Client(&cs)
 		json.NewEncoder(os.Stdout).Encode(ob)
 		os.Exit(0)
 	}
@@ -215,7 +284,6 @@ func c25Main(seed uint64, n int, replay string) {
 			cases = append(cases, c25Gen(r, i))
 		}
 	}
-	exe, _ := os.Executable()
 	const workers = 6
 	var wg sync.WaitGroup
 	ch := make(chan *Case)
@@ -224,14 +292,8 @@ func c25Main(seed uint64, n int, replay string) {
 		go func() {
 			defer wg.Done()
 			for c := range ch {
-				b, _ := json.Marshal(c)
-				p := startCmd(exe, []string{"c25"}, []string{"C25_CHILD=1"}, b, 90*time.Second)
-				var ob c25obs
-				if err := json.Unmarshal(p.stdout, &ob); err != nil {
-					msg, where := parsePanic(string(p.stderr))
-					emit(map[string]interface{}{"case": c, "err": "child failed", "panic": msg, "where": where})
-					continue
-				}
+				ob := c25Run(c)
+				c.URL = ""
 				emit(ob)
 			}
 		}()
